@@ -1397,6 +1397,9 @@ class Container:
             mw_y = mass / moles
             m_y = Unit.convert_from_storage(solvent.contents.get(solute, 0), 'mol') / (volume / 1000)
         else:
+            if solvent.density == float('inf'):
+                # (the portions are volumes: a substance without volume - the zero-volume density option - has none)
+                raise ValueError("Solvent has no volume to dilute with.")
             d_y = solvent.density
             mw_y = solvent.mol_weight
             m_y = 0  # no solute in solvent
